@@ -16,6 +16,7 @@ pub mod c13;
 pub mod c14;
 pub mod c15;
 pub mod c16;
+pub mod c17;
 
 pub struct Monitor {
     pub meta: &'static PropMeta,
@@ -40,5 +41,6 @@ pub fn all() -> Vec<Monitor> {
         Monitor { meta: &c14::META, run: c14::run, replay: c14::replay },
         Monitor { meta: &c15::META, run: c15::run, replay: c15::replay },
         Monitor { meta: &c16::META, run: c16::run, replay: c16::replay },
+        Monitor { meta: &c17::META, run: c17::run, replay: c17::replay },
     ]
 }
